@@ -19,7 +19,7 @@ from mc.lattice import chunked
 UTC = timezone.utc
 OFFS = (-14 * 60, -330, 0, 345, 14 * 60)
 BOUNDS = {
-    "quick": {"grid": "G1: ~180 anchors x ms {0,1,499,500,999} x 24 durations (rotating offsets); G2: 3 us-binade-edge anchors (2^49,2^50,2^51 us) x all 1000 ms x 12 durations; G3: ~110 durations x 6 anchors x ms {0,999}; G4: data catalogue (34) x 2 anchors; each inserted singly AND in bulk; all three backends", "ownership": "5 write ops x 5 mutations x 3 read ops x 3 mutated objects + metadata/buckets/create/update aliasing histories", "id_uniqueness": "all histories of 5 ops over insert / bulk insert / bulk insert of the same object twice / delete oldest|newest|middle, ids unique and lookup == listing after every op"},
+    "quick": {"grid": "G1: ~180 anchors x ms {0,1,499,500,999} x 24 durations (rotating offsets); G2: 3 us-binade-edge anchors (2^49,2^50,2^51 us) x all 1000 ms x 12 durations; G3: ~110 durations x 6 anchors x ms {0,999}; G4: data catalogue (34) x 2 anchors; each inserted singly AND in bulk; all three backends", "ownership": "5 write ops x 5 mutations x 3 read ops x 3 mutated objects + metadata/buckets/create/update aliasing histories", "acknowledged_then_rejected": "1-3 unobserved single inserts followed by each of 6 rejected operations (same / other bucket), then listing and lookup", "id_uniqueness": "all histories of 5 ops over insert / bulk insert / bulk insert of the same object twice / delete oldest|newest|middle, ids unique and lookup == listing after every op"},
     "thorough": {"grid": "G2 additionally at one anchor per decade 1970..2100, epoch 0 and 2100-12-31T23:59:59, x all 1000 ms x 24 durations; rest as quick"},
 }
 RULE = (
@@ -415,8 +415,75 @@ def _unit_ids(args):
     return u.result()
 
 
+ACK_FAULTS = ("bulk_unserialisable", "single_unserialisable", "upsert_unserialisable", "delete_absent_bucket", "update_absent_bucket", "lookup_absent_bucket")
+
+
+def ack_case(backend, wdir, k, fault, into_other):
+    """k acknowledged single inserts that nobody has read yet, then a REJECTED operation, then reads:
+    every acknowledged event must still be listed and found by id"""
+    ds = S.fresh(backend, wdir)
+    S.mk_bucket(ds, "x")
+    S.mk_bucket(ds, "y")
+    ids = []
+    for n in range(k):
+        e = ds["x"].insert(Event(timestamp=T0 + timedelta(seconds=n), duration=1, data={"n": n}))
+        ids.append(e.id)
+    tgt = ds["y" if into_other else "x"]
+    bad = Event(timestamp=T0 + timedelta(seconds=99), duration=1, data={"bad": object()})
+    try:
+        if fault == "bulk_unserialisable":
+            tgt.insert([Event(timestamp=T0 + timedelta(seconds=98), duration=1, data={"ok": 1}), bad])
+        elif fault == "single_unserialisable":
+            tgt.insert(bad)
+        elif fault == "upsert_unserialisable":
+            bad.id = ids[0] if not into_other else 1
+            tgt.insert([bad])
+        elif fault == "delete_absent_bucket":
+            ds.delete_bucket("no-such-bucket")
+        elif fault == "update_absent_bucket":
+            ds.update_bucket("no-such-bucket", type_id="t")
+        elif fault == "lookup_absent_bucket":
+            ds["no-such-bucket"]
+        raised = False
+    except Exception:
+        raised = True
+    if not raised and fault == "upsert_unserialisable" and not into_other:
+        return None  # this backend accepted the event (memory serialises nothing): an ordinary upsert of event 0
+    # (the memory store has nothing to serialise and legitimately accepts such an event: read the
+    # markers directly instead of dumping data as JSON)
+    got = sorted(e.data["n"] for e in ds["x"].get(-1) if isinstance(e.data, dict) and "n" in e.data)
+    if got != list(range(k)):
+        return f"{k} inserts were acknowledged, then {fault} ({'other' if into_other else 'same'} bucket) was rejected; the bucket now lists events {got}"
+    for i in ids:
+        if i is not None and ds["x"].get_by_id(i) is None:
+            return f"after rejected {fault}, acknowledged event id {i} cannot be looked up"
+    return None
+
+
+def _unit_ack(backend):
+    ctx = _G["ctx"]
+    u = Unit()
+    for k in (1, 2, 3):
+        for fault in ACK_FAULTS:
+            for into_other in (False, True):
+                u.evaluations += 1
+                u.transitions += 1
+                u.states += 1
+                u.nontrivial += 1
+                u.traces += 1
+                try:
+                    p = ack_case(backend, ctx.wdir(), k, fault, into_other)
+                except Exception as ex:
+                    p = f"raised {type(ex).__name__}: {ex}"
+                if p:
+                    u.violation(f"{backend}:acknowledged-insert-lost-after-rejected-{fault}", f"{backend}: {p}", {"kind": "ack", "backend": backend, "k": k, "fault": fault, "into_other": into_other}, size=k)
+    u.sample({"kind": "acknowledged inserts then a rejected operation", "backend": backend, "faults": list(ACK_FAULTS)}, cap=1)
+    S.close_all()
+    return u.result()
+
+
 def _dispatch(x):
-    return {"fid": _unit_fid, "own": _unit_own, "ids": _unit_ids}[x[0]](x[1])
+    return {"fid": _unit_fid, "own": _unit_own, "ids": _unit_ids, "ack": _unit_ack}[x[0]](x[1])
 
 
 def run(ctx):
@@ -426,7 +493,7 @@ def run(ctx):
     B = 200
     for i in range(0, len(g), B):
         batches.append((i, g[i : i + B]))
-    units = [("own", b) for b in S.BACKENDS]
+    units = [("own", b) for b in S.BACKENDS] + [("ack", b) for b in S.BACKENDS]
     depth = 6 if ctx.thorough else 5
     for backend in S.BACKENDS:
         for op in IDOPS[:3]:
@@ -453,6 +520,9 @@ def run_case(ctx, case):
     if case["kind"] == "own":
         p = own_case(case["backend"], ctx.wdir(), case["w"], case["m"], case["r"], case["victim"])
         return {"violations": [["aliasing", p]] if p else []}
+    if case["kind"] == "ack":
+        p = ack_case(case["backend"], ctx.wdir(), case["k"], case["fault"], case["into_other"])
+        return {"violations": [["acknowledged-insert-lost", p]] if p else []}
     if case["kind"] == "ids":
         r = _unit_ids((case["backend"], (case["history"][0],), 1)) if len(case["history"]) == 1 else None
         ds = S.fresh(case["backend"], ctx.wdir())
